@@ -286,6 +286,47 @@ def part_formula(ctx, shard):
                         ctx.violation(f"C09|offset-source|eq={eq}|from={fu}|to-dim={td}|mode=differs-from-formula", {"part": "formula", "eq": eq, "from": fu, "to": tu, "kw": {}}, want.tolist(), got.tolist())
 
 
+def part_custom_registry(ctx, shard):
+    """operands and target NAMES that live in a custom registry (a re-defined Msun, a code_mass symbol): every entry point
+    reads the target name in the operand's registry"""
+    from unyt import dimensions as udims
+    from unyt.unit_registry import UnitRegistry
+
+    world.reset_world()
+    F = formulas()
+    for eq in shard:
+        reg = UnitRegistry()
+        reg.modify("Msun", 2.0e30)
+        reg.add("code_mass", 5.0, udims.mass)
+        reg.add("code_length", 3.0, udims.length)
+        local = {"mass": ["Msun", "code_mass", "kg"], "length": ["code_length", "km"], "energy": ["J", "code_mass*code_length**2/s**2"]}
+        for (fd, td), f in F[eq].items():
+            if fd not in local or td not in local:
+                continue
+            for fu, tu in itertools.product(local[fd], local[td]):
+                fscale = float(Unit(fu, registry=reg).base_value)
+                tscale = float(Unit(tu, registry=reg).base_value)
+                x_si = np.asarray(src_values(eq, fd), dtype=float)
+                src = unyt_array(x_si / fscale, fu, registry=reg, name="src")
+                want = f(stored_si(src)) / tscale
+                rt = rtol_for("float64", eq)
+                for ename, ef in list(COPY_ENTRIES.items()) + list(INPLACE_ENTRIES.items()):
+                    ctx.count("evaluations")
+                    q = src.copy()
+                    st, r = run_entry(ef, q, tu, eq, {})
+                    case = {"part": "custom-registry", "eq": eq, "from": fu, "to": tu, "entry": ename}
+                    base = f"C09|custom-registry|eq={eq}|pair={fd}->{td}|entry={ename}"
+                    ctx.outcome(("custom", eq, fu, tu, ename, st))
+                    if st == "raise":
+                        ctx.violation(base + f"|mode=covered-request-raises:{type(r).__name__}", case, "value", str(r)[:120])
+                        continue
+                    ctx.decided(("custom", eq, fu, tu, ename))
+                    res = q if ename in INPLACE_ENTRIES else r
+                    got = np.asarray(res.d if isinstance(res, unyt_array) else res, dtype=float)
+                    if got.shape != want.shape or np.any(np.abs(got - want) > rt * np.abs(want)):
+                        ctx.violation(base + "|mode=target-name-read-in-another-registry-or-wrong-value", case, want.tolist(), got.tolist())
+
+
 def part_uncovered(ctx, shard):
     world.reset_world()
     F = formulas()
@@ -327,6 +368,7 @@ def run(ctx):
         raise harness.HarnessError("equivalence without reference formula: " + ", ".join(missing))
     harness.pmap(ctx, part_formula, [[e] for e in EQS])
     harness.pmap(ctx, part_uncovered, [[e] for e in EQS])
+    harness.pmap(ctx, part_custom_registry, [["schwarzschild"], ["mass_energy"], ["compton"]])
     return {
         "coverage": {
             "rule": "formula: equivalence x keyword set x ordered member-dimension pair x input unit x target unit x dtype x shape x "
@@ -351,7 +393,9 @@ def run(ctx):
 
 def replay(case):
     ctx = harness.Ctx(PROPERTY, "quick", 0)
-    if case["part"] == "uncovered":
+    if case["part"] == "custom-registry":
+        part_custom_registry(ctx, [case["eq"]])
+    elif case["part"] == "uncovered":
         part_uncovered(ctx, [case["eq"]])
     else:
         part_formula(ctx, [case["eq"]])
